@@ -710,6 +710,10 @@ impl<'t> Gen<'t> {
             }
             match &k {
                 K::F(params, ret) => {
+                    // `rec x (f ...)`: the result kind of an application may be unknown inside the module.
+                    if at_head && self.rec_head {
+                        continue;
+                    }
                     if depth > 0 && self.satisfies(ret, w, None) {
                         // In a plain slot the function's result must not be on a cycle either.
                         if plain && !self.cfg.loose_rec_as_plain && !self.safe_for_plain(*b) {
@@ -772,7 +776,7 @@ impl<'t> Gen<'t> {
         if can_create {
             let k = self.concrete_kind(w);
             let acyclic = plain || self.cur_acyclic();
-            if depth > 0 && self.t.chance(1, 3) && !matches!(k, K::Ranges) {
+            if depth > 0 && !(at_head && self.rec_head) && self.t.chance(1, 3) && !matches!(k, K::Ranges) {
                 let (f, params) = self.new_function(k, acyclic);
                 self.note_edge(f.binder.unwrap());
                 let cross = f.via.is_some() && self.cfg.loose_cross_module_poly;
@@ -1290,6 +1294,13 @@ impl<'t> Gen<'t> {
         } else {
             vec![]
         };
+        // A declaration requested for a range position may have come out as a plain schema:
+        // its kind is what its body is (it can then be cut at, if it is on a cycle).
+        if k == K::Ranges {
+            if let Some(actual) = self.kind_of(&body) {
+                self.prog.binders[id].k = actual;
+            }
+        }
         self.scope.clear();
         self.cur = None;
         self.prop_name_hint = None;
@@ -1297,6 +1308,42 @@ impl<'t> Gen<'t> {
         self.completed.insert(id, self.clock);
         let m = self.cur_module;
         self.prog.modules[m].stmts.push(Stmt::Let(Decl { id, anns, params, body }));
+    }
+
+    /// The kind of a generated expression, read off its head.
+    fn kind_of(&self, e: &E) -> Option<K> {
+        Some(match e {
+            E::Paren(i) | E::Ann(_, _, i) => return self.kind_of(i),
+            E::Content(_, _) => K::Content,
+            E::Op(OpKind::Range, _) => K::Ranges,
+            E::Prim(_) => K::S(Tag::Prim, Shape::Plain),
+            E::Object(_) => K::S(Tag::Obj, Shape::Plain),
+            E::Array(_) => K::S(Tag::Arr, Shape::Plain),
+            E::Uri(_, _) => K::S(Tag::Uri, Shape::Plain),
+            E::Relation(_, _) => K::S(Tag::Rel, Shape::Plain),
+            E::Op(OpKind::Join, _) => K::S(Tag::Obj, Shape::Op),
+            E::Op(OpKind::Any, _) => K::S(Tag::Any, Shape::Op),
+            E::Op(OpKind::Sum, ops) => match self.kind_of(ops.first()?)? {
+                K::S(t, _) => K::S(t, Shape::Op),
+                _ => return None,
+            },
+            E::Rec(b, _) => match &self.prog.binders[*b].k {
+                K::S(t, _) => K::S(*t, Shape::Op),
+                _ => return None,
+            },
+            E::Var(v) => match v.binder {
+                Some(b) => self.prog.binders[b].k.clone(),
+                None => return None,
+            },
+            E::App(v, _) => match v.binder {
+                Some(b) => match &self.prog.binders[b].k {
+                    K::F(_, r) => (**r).clone(),
+                    _ => return None,
+                },
+                None => K::S(Tag::Uri, Shape::Plain),
+            },
+            _ => return None,
+        })
     }
 
     fn drain_queue(&mut self) {
